@@ -41,7 +41,8 @@ theorem roundtrip (enc : M → Bytes) (size : M → Nat) (swap : Bool) (m : M) (
   · cases hw
     rw [readStream_ok_iff]
     have h1 := nMeta_ne_nState; have h2 := nMeta_ne_nSums; have h3 := nState_ne_nSums
-    refine ⟨rfl, ?_, ?_, ?_, ?_⟩
+    refine ⟨rfl, ?_, ?_, ?_, ?_, ⟨_, List.mem_cons_self .., rfl⟩,
+      ⟨_, List.mem_cons_of_mem _ (List.mem_cons_self ..), rfl⟩⟩
     · intro x hx; simp at hx; rcases hx with rfl | rfl | rfl <;> simp
     · simp [metas, foldApply, hcodec, h1.symm, h2.symm]
     · simp [cat, h1, h3.symm]
@@ -72,14 +73,16 @@ theorem write_succeeds (enc : M → Bytes) (size : M → Nat) (swap : Bool) (m :
     every member is complete and is named meta.json, state.bin or SHA256SUMS; every meta.json
     payload decodes; the SHA256SUMS text scans, lists only those two names, lists both, with
     exactly the digests of the (concatenated) meta.json and state.bin payloads; and then the
-    result is the decoded metadata and the concatenated state payload.
+    there is at least one meta.json and one state.bin member; and then the result is the decoded
+    metadata and the concatenated state payload.
     (The code does not demand a single member per name: repeated members are hashed and
     returned as one concatenation, which is what the right-hand side says.) -/
 theorem accept_iff_intact (s : Stream) (m : M) (st : Bytes) :
     readStream H apply m0 s = .ok (m, st) ↔
       s.ending = .eof ∧ Clean s.members ∧ foldApply apply m0 (metas s.members) = some m ∧
       st = cat nState s.members ∧
-      SumsOK (H (cat nMeta s.members)) (H (cat nState s.members)) (cat nSums s.members) :=
+      SumsOK (H (cat nMeta s.members)) (H (cat nState s.members)) (cat nSums s.members) ∧
+      Has nMeta s.members ∧ Has nState s.members :=
   readStream_ok_iff H apply m0 m s st
 
 /-- Design name `accept_implies_intact`: the forward direction, spelt out. -/
@@ -90,10 +93,11 @@ theorem accept_implies_intact (s : Stream) (m : M) (st : Bytes)
     st = cat nState s.members ∧
     (∃ es, parseSums (cat nSums s.members) = some es ∧
       (∀ e ∈ es, e = (H (cat nMeta s.members), nMeta) ∨ e = (H st, nState)) ∧
-      (H (cat nMeta s.members), nMeta) ∈ es ∧ (H st, nState) ∈ es) := by
-  obtain ⟨h1, h2, _, h4, h5⟩ := (readStream_ok_iff H apply m0 m s st).mp h
+      (H (cat nMeta s.members), nMeta) ∈ es ∧ (H st, nState) ∈ es) ∧
+    (∃ x ∈ s.members, x.name = nMeta) ∧ (∃ x ∈ s.members, x.name = nState) := by
+  obtain ⟨h1, h2, _, h4, h5, h6, h7⟩ := (readStream_ok_iff H apply m0 m s st).mp h
   subst h4
-  exact ⟨h1, h2, rfl, h5⟩
+  exact ⟨h1, h2, rfl, h5, h6, h7⟩
 
 /-- What is extracted is a function of the meta.json and state.bin payloads alone: two accepted
     streams with the same payload sequences return the same thing, whatever else differs
@@ -122,8 +126,8 @@ theorem altered_member_rejected (s s' : Stream) (m : M) (st : Bytes)
     ∃ e, readStream H apply m0 s' = .error e := by
   apply rejected_of_not_accepted
   intro m' st' h'
-  obtain ⟨_, _, _, _, es, hp, hall, hm, hs⟩ := (readStream_ok_iff H apply m0 m s st).mp h
-  obtain ⟨_, _, _, _, es', hp', hall', hm', hs'⟩ := (readStream_ok_iff H apply m0 m' s' st').mp h'
+  obtain ⟨_, _, _, _, ⟨es, hp, hall, hm, hs⟩, _⟩ := (readStream_ok_iff H apply m0 m s st).mp h
+  obtain ⟨_, _, _, _, ⟨es', hp', hall', hm', hs'⟩, _⟩ := (readStream_ok_iff H apply m0 m' s' st').mp h'
   rw [hsums, hp] at hp'
   cases hp'
   have h1 := nMeta_ne_nState
@@ -193,8 +197,8 @@ theorem altered_sums_rejected (s s' : Stream) (m : M) (st : Bytes) (es es' : Lis
     ∃ e, readStream H apply m0 s' = .error e := by
   apply rejected_of_not_accepted
   intro m' st' h'
-  obtain ⟨_, _, _, _, es1, hp1, hall, hm, hs⟩ := (readStream_ok_iff H apply m0 m s st).mp h
-  obtain ⟨_, _, _, _, es2, hp2, hall', hm', hs'⟩ := (readStream_ok_iff H apply m0 m' s' st').mp h'
+  obtain ⟨_, _, _, _, ⟨es1, hp1, hall, hm, hs⟩, _⟩ := (readStream_ok_iff H apply m0 m s st).mp h
+  obtain ⟨_, _, _, _, ⟨es2, hp2, hall', hm', hs'⟩, _⟩ := (readStream_ok_iff H apply m0 m' s' st').mp h'
   rw [hp] at hp1; cases hp1
   rw [hp'] at hp2; cases hp2
   simp only [hmeta, hstate] at hall' hm' hs'
@@ -209,17 +213,39 @@ theorem unparsable_sums_rejected (s : Stream) (h : parseSums (cat nSums s.member
     ∃ e, readStream H apply m0 s = .error e := by
   apply rejected_of_not_accepted
   intro m st hr
-  obtain ⟨_, _, _, _, es, hp, _⟩ := (readStream_ok_iff H apply m0 m s st).mp hr
+  obtain ⟨_, _, _, _, ⟨es, hp, _⟩, _⟩ := (readStream_ok_iff H apply m0 m s st).mp hr
   rw [h] at hp; cases hp
 
 /-! ## missing / unexpected members -/
 
-/-- **Missing member rejected** (partial: see the counterexample below). A stream without any
-    meta.json member (resp. state.bin member) is checked against the digest of the empty
-    string; it is rejected whenever SHA256SUMS lists, for that name, a digest different from
-    `H []` — in particular whenever it was valid for a non-empty member whose digest differs
-    from that of the empty string. -/
-theorem missing_member_rejected_partial (s s' : Stream) (m : M) (st : Bytes)
+/-- **Missing member rejected.** A stream without any meta.json member, or without any
+    state.bin member, is rejected — unconditionally: whatever SHA256SUMS lists (also the digest
+    of the empty string, which is what an absent member hashes to) and whatever `H` is.
+    (Before the repository fix 4aca783 this was false: `read` could not tell an absent member
+    from an empty one, and a valid archive with empty state whose state.bin member had been
+    removed was accepted; only `missing_member_digest_mismatch` below held.) -/
+theorem missing_member_rejected (s : Stream) (h : ¬ Has nMeta s.members ∨ ¬ Has nState s.members) :
+    ∃ e, readStream H apply m0 s = .error e := by
+  apply rejected_of_not_accepted
+  intro m st hr
+  obtain ⟨_, _, _, _, _, h1, h2⟩ := (readStream_ok_iff H apply m0 m s st).mp hr
+  rcases h with h | h
+  · exact h h1
+  · exact h h2
+
+/-- …and with which error, when everything else about the archive is in order: the check comes
+    after `DecodeAndVerify`, meta.json first. -/
+theorem missing_member_error (s : Stream) (m : M)
+    (he : s.ending = .eof) (hc : Clean s.members) (hf : foldApply apply m0 (metas s.members) = some m)
+    (hs : SumsOK (H (cat nMeta s.members)) (H (cat nState s.members)) (cat nSums s.members)) :
+    (¬ Has nMeta s.members → readStream H apply m0 s = .error .missingMeta) ∧
+    (Has nMeta s.members → ¬ Has nState s.members → readStream H apply m0 s = .error .missingState) :=
+  readStream_missing H apply m0 m s he hc hf hs
+
+/-- The pre-fix guarantee, still true: removing all meta.json (resp. state.bin) content from an
+    accepted archive while SHA256SUMS stays is already caught by the digest comparison whenever
+    the digest of the removed content differs from the digest of the empty string. -/
+theorem missing_member_digest_mismatch (s s' : Stream) (m : M) (st : Bytes)
     (h : readStream H apply m0 s = .ok (m, st))
     (hsums : cat nSums s'.members = cat nSums s.members)
     (hgone : (cat nMeta s'.members = [] ∧ H (cat nMeta s.members) ≠ H []) ∨
@@ -230,31 +256,34 @@ theorem missing_member_rejected_partial (s s' : Stream) (m : M) (st : Bytes)
   · left; rw [e]; exact fun x => hd x.symm
   · right; rw [e]; exact fun x => hd x.symm
 
-/-- The full statement "an archive that lacks a member is rejected" is FALSE for the code as it
-    is: the hashes of both names exist before the loop (`hl.Add`), so a missing member is
-    indistinguishable from an empty one. Witness: a valid archive whose state is empty, with
-    the state.bin member removed, is accepted (and extracts the same empty state). Concrete
-    instance: digest = 32 zero bytes for every input, metadata decoding always succeeds. -/
-theorem missing_member_counterexample :
+/-- The former counterexample, now a regression witness: the archive with empty state whose
+    state.bin member was removed (SHA256SUMS still valid for it) is rejected with
+    `missingState`, while the same archive with the empty member present is accepted.
+    Concrete instance: digest = 32 zero bytes for every input, decoding always succeeds. -/
+theorem missing_empty_member_witness :
     let H0 : Bytes → Bytes := fun _ => List.replicate 32 0
     let ap : Unit → Bytes → Option Unit := fun _ _ => some ()
     let sums := encodeSums false (H0 []) (H0 [])
     readStream H0 ap () ⟨[⟨nMeta, [123, 125], false⟩, ⟨nState, [], false⟩, ⟨nSums, sums, false⟩], .eof⟩ = .ok ((), []) ∧
-    readStream H0 ap () ⟨[⟨nMeta, [123, 125], false⟩, ⟨nSums, sums, false⟩], .eof⟩ = .ok ((), []) := by
+    readStream H0 ap () ⟨[⟨nMeta, [123, 125], false⟩, ⟨nSums, sums, false⟩], .eof⟩ = .error .missingState := by
   intro H0 ap sums
   have hd : ∀ x, DigestOK (H0 x) := by intro x; exact ⟨by simp [H0], by simp [H0]⟩
   have hs : ∀ a b, SumsOK (H0 a) (H0 b) sums := by
     intro a b; exact sumsOK_encodeSums false (H0 a) (H0 b) (hd a) (hd b)
   constructor
   · rw [readStream_ok_iff]
-    refine ⟨rfl, ?_, by simp [metas, foldApply, nMeta, nState, nSums, ap], by simp [cat, nMeta, nState, nSums], ?_⟩
+    refine ⟨rfl, ?_, by simp [metas, foldApply, nMeta, nState, nSums, ap], by simp [cat, nMeta, nState, nSums], ?_,
+      ⟨_, List.mem_cons_self .., rfl⟩, ⟨_, List.mem_cons_of_mem _ (List.mem_cons_self ..), rfl⟩⟩
     · intro x hx; simp at hx; rcases hx with rfl | rfl | rfl <;> simp
     · have : cat nSums [⟨nMeta, [123, 125], false⟩, ⟨nState, [], false⟩, ⟨nSums, sums, false⟩] = sums := by
         simp [cat, nMeta, nState, nSums]
       rw [this]; exact hs [] []
-  · rw [readStream_ok_iff]
-    refine ⟨rfl, ?_, by simp [metas, foldApply, nMeta, nSums, ap], by simp [cat, nMeta, nState, nSums], ?_⟩
+  · apply (readStream_missing H0 ap () () ⟨[⟨nMeta, [123, 125], false⟩, ⟨nSums, sums, false⟩], .eof⟩ rfl ?_ ?_ ?_).2
+    · exact ⟨_, List.mem_cons_self .., rfl⟩
+    · rintro ⟨x, hx, hn⟩
+      simp at hx; rcases hx with rfl | rfl <;> simp [nMeta, nState, nSums] at hn
     · intro x hx; simp at hx; rcases hx with rfl | rfl <;> simp
+    · simp [metas, foldApply, nMeta, nSums, ap]
     · have : cat nSums [⟨nMeta, [123, 125], false⟩, ⟨nSums, sums, false⟩] = sums := by
         simp [cat, nMeta, nSums]
       rw [this]; exact hs [] []
@@ -265,7 +294,7 @@ theorem missing_sums_rejected (s : Stream) (h : cat nSums s.members = []) :
     ∃ e, readStream H apply m0 s = .error e := by
   apply rejected_of_not_accepted
   intro m st hr
-  obtain ⟨_, _, _, _, es, hp, _, hm, _⟩ := (readStream_ok_iff H apply m0 m s st).mp hr
+  obtain ⟨_, _, _, _, ⟨es, hp, _, hm, _⟩, _⟩ := (readStream_ok_iff H apply m0 m s st).mp hr
   rw [h, parseSums_nil] at hp
   cases hp
   simp at hm
@@ -277,7 +306,7 @@ theorem missing_checksum_rejected (s : Stream) (es : List (Bytes × Bytes))
     ∃ e, readStream H apply m0 s = .error e := by
   apply rejected_of_not_accepted
   intro m st hr
-  obtain ⟨_, _, _, _, es', hp', _, hm, hs⟩ := (readStream_ok_iff H apply m0 m s st).mp hr
+  obtain ⟨_, _, _, _, ⟨es', hp', _, hm, hs⟩, _⟩ := (readStream_ok_iff H apply m0 m s st).mp hr
   rw [hp] at hp'; cases hp'
   rcases h with h | h
   · exact h _ hm rfl
@@ -324,7 +353,12 @@ theorem reorder_same (ms ms' : List Member) (e : Ending)
     constructor <;> intro h x hx
     · exact h x ((hmem x).mpr hx)
     · exact h x ((hmem x).mp hx)
-  simp only [c, k, cl]
+  have hh : ∀ nm, Has nm ms' ↔ Has nm ms := by
+    intro nm
+    constructor <;> rintro ⟨x, hx, hn⟩
+    · exact ⟨x, (hmem x).mp hx, hn⟩
+    · exact ⟨x, (hmem x).mpr hx, hn⟩
+  simp only [c, k, cl, hh]
 
 /-- every permutation of a three-member archive with distinct names (what `write` produces)
     satisfies the hypothesis of `reorder_same` -/
@@ -575,7 +609,8 @@ theorem single_byte_damage_nonvacuous :
   constructor
   · rw [readStream_ok_iff]
     refine ⟨rfl, ?_, by simp [ms, full, metas, foldApply, nMeta, nState, nSums, ap],
-      by simp [ms, full, cat, nMeta, nState, nSums], ?_⟩
+      by simp [ms, full, cat, nMeta, nState, nSums], ?_,
+      ⟨full (nMeta, [1]), by simp [ms], rfl⟩, ⟨full (nState, [2]), by simp [ms], rfl⟩⟩
     · intro x hx; simp [ms, full] at hx; rcases hx with rfl | rfl | rfl <;> simp
     · have e1 : cat nMeta (ms.map full) = [1] := by simp [ms, full, cat, nMeta, nState, nSums]
       have e2 : cat nState (ms.map full) = [2] := by simp [ms, full, cat, nMeta, nState, nSums]
